@@ -72,7 +72,7 @@ def fetchRange (obj : Bytes) (S : Nat) (lastOff : Int) (lastLen : Nat) (m : Rng)
 structure Fetched where
   hits : List (Nat × Bytes)        -- the `hits` map after fetching, keyed by subrange offset
   reads : List (Nat × Nat)         -- GetRange(start, length) calls on the wrapped bucket
-  stores : List (Nat × Nat)        -- subrange keys (start, end) stored into the cache
+  stores : List ((Nat × Nat) × Bytes)   -- subrange keys (start, end) and data stored into the cache
   deriving Repr
 
 /-- the subranges fetched for the merged ranges, in order; only keys not yet in `hits` are kept
@@ -89,7 +89,7 @@ def fetchAll (obj : Bytes) (S : Nat) (lastOff : Int) (lastLen : Nat) :
       fetchAll obj S lastOff lastLen ms
         { hits := acc.hits ++ fresh
           reads := acc.reads ++ [(m.start, m.stop - m.start)]
-          stores := acc.stores ++ fresh.map fun (off, _) => (off, min (off + S) obj.length) }
+          stores := acc.stores ++ fresh.map fun (off, d) => ((off, min (off + S) obj.length), d) }
 
 /-- subrangesReader.Read with a buffer of `p` bytes; `remaining : Int` as in the code -/
 def readStep (S : Nat) (hits : List (Nat × Bytes)) (p : Nat) (readOffset : Nat) (remaining : Int) :
@@ -120,7 +120,7 @@ def readAll (S : Nat) (hits : List (Nat × Bytes)) (p : Nat) : Nat → Nat → I
 structure Result where
   out : Except Err Bytes
   reads : List (Nat × Nat)
-  stores : List (Nat × Nat)
+  stores : List ((Nat × Nat) × Bytes)
   deriving Repr
 
 /-- cachedGetRange (after the attributes lookup, which yields `size = obj.length`), for
